@@ -106,6 +106,114 @@ theorem ni_list (h : String → Except Err Val) (env : Env) :
     exact Le.bind (ni_eval h env e) fun _ => Le.bind (ni_list h env rest) fun _ => Le.refl _
 end
 
+/-! ### the same for every outcome except the evaluator's own ValueError: a `floatResult` (or a Python-operation error) of the
+    real instance is the outcome under EVERY handler — no non-whitelisted node was consulted before the float arose -/
+
+/-- `y` is `x` unless `x` is the evaluator's own ValueError -/
+def Ag {α : Type} (x y : Except Err α) : Prop := x = .error .value ∨ y = x
+
+theorem Ag.refl {α : Type} (x : Except Err α) : Ag x x := Or.inr rfl
+
+theorem Ag.bind {α β : Type} {x y : Except Err α} {f g : α → Except Err β}
+    (hxy : Ag x y) (hfg : ∀ a, Ag (f a) (g a)) : Ag (x >>= f) (y >>= g) := by
+  rcases hxy with h | h
+  · subst h; exact Or.inl rfl
+  · subst h
+    cases y with
+    | error e => exact Or.inr rfl
+    | ok a => exact hfg a
+
+theorem Ag.ite {α : Type} {c : Prop} [Decidable c] {x y x' y' : Except Err α}
+    (h1 : Ag x x') (h2 : Ag y y') : Ag (if c then x else y) (if c then x' else y') := by
+  split
+  · exact h1
+  · exact h2
+
+theorem Ag.le {α : Type} {x y : Except Err α} (h : Ag x y) : Le x y := by
+  intro v hv
+  rcases h with h | h
+  · rw [h] at hv; cases hv
+  · rw [h]; exact hv
+
+mutual
+theorem ag_eval (h : String → Except Err Val) (env : Env) :
+    ∀ e : PExpr, Ag (evalH h0 env e) (evalH h env e)
+  | .const v => by rw [evalH, evalH]; exact Ag.refl _
+  | .name x => by rw [evalH, evalH]; exact Ag.refl _
+  | .bin op a b => by
+    rw [evalH, evalH]
+    exact Ag.bind (ag_eval h env a) fun _ => Ag.bind (ag_eval h env b) fun _ => Ag.refl _
+  | .un op a => by
+    rw [evalH, evalH]
+    exact Ag.bind (ag_eval h env a) fun _ => Ag.refl _
+  | .and a b => by
+    rw [evalH, evalH]
+    exact Ag.bind (ag_eval h env a) fun _ => Ag.ite (ag_eval h env b) (Ag.refl _)
+  | .or a b => by
+    rw [evalH, evalH]
+    exact Ag.bind (ag_eval h env a) fun _ => Ag.ite (Ag.refl _) (ag_eval h env b)
+  | .compare l rest => by
+    rw [evalH, evalH]
+    refine Ag.bind (ag_eval h env l) fun v => ?_
+    cases rest with
+    | nil => exact Ag.refl _
+    | cons p ps => exact ag_chain h env v (p :: ps)
+  | .ifexp c a b => by
+    rw [evalH, evalH]
+    exact Ag.bind (ag_eval h env c) fun _ => Ag.ite (ag_eval h env a) (ag_eval h env b)
+  | .fstr parts => by
+    rw [evalH, evalH]
+    exact Ag.bind (ag_parts h env parts) fun _ => Ag.refl _
+  | .call f [] => by
+    rw [evalH, evalH]; exact Ag.refl _
+  | .call f [a] => by
+    rw [evalH, evalH]
+    refine Ag.ite (Ag.bind (ag_eval h env a) fun _ => Ag.refl _) ?_
+    refine Ag.ite (Ag.bind (ag_eval h env a) fun _ => Ag.refl _) ?_
+    refine Ag.ite (Ag.bind (ag_eval h env a) fun _ => Ag.refl _) ?_
+    exact Ag.ite (Ag.bind (ag_list h env [a]) fun _ => Ag.refl _) (Ag.refl _)
+  | .call f (a :: b :: r) => by
+    rw [evalH.eq_12 _ _ _ _ (by simp) (by simp), evalH.eq_12 _ _ _ _ (by simp) (by simp)]
+    refine Ag.ite (Ag.refl _) ?_
+    refine Ag.ite (Ag.refl _) ?_
+    refine Ag.ite (Ag.refl _) ?_
+    exact Ag.ite (Ag.bind (ag_list h env (a :: b :: r)) fun _ => Ag.refl _) (Ag.refl _)
+  | .seq t es => by
+    rw [evalH, evalH]
+    exact Ag.bind (ag_list h env es) fun _ => Ag.refl _
+  | .forbidden k => by
+    rw [evalH]; exact Or.inl rfl
+
+theorem ag_chain (h : String → Except Err Val) (env : Env) (l : Val) :
+    ∀ rest : List (CmpOp × PExpr), Ag (evalChainH h0 env l rest) (evalChainH h env l rest)
+  | [] => by rw [evalChainH, evalChainH]; exact Ag.refl _
+  | (op, e) :: rest => by
+    rw [evalChainH, evalChainH]
+    refine Ag.bind (ag_eval h env e) fun r => Ag.bind (Ag.refl _) fun ok => ?_
+    exact Ag.ite (ag_chain h env r rest) (Ag.refl _)
+
+theorem ag_parts (h : String → Except Err Val) (env : Env) :
+    ∀ ps : List (Option String × Option PExpr), Ag (evalPartsH h0 env ps) (evalPartsH h env ps)
+  | [] => by rw [evalPartsH, evalPartsH]; exact Ag.refl _
+  | (some s, _) :: rest => by
+    rw [evalPartsH, evalPartsH]
+    exact Ag.bind (ag_parts h env rest) fun _ => Ag.refl _
+  | (none, some e) :: rest => by
+    rw [evalPartsH, evalPartsH]
+    refine Ag.bind (ag_eval h env e) fun v => ?_
+    cases pyStr v with
+    | none => exact Ag.refl _
+    | some s => exact Ag.bind (ag_parts h env rest) fun _ => Ag.refl _
+  | (none, none) :: _ => by rw [evalPartsH, evalPartsH]; exact Ag.refl _
+
+theorem ag_list (h : String → Except Err Val) (env : Env) :
+    ∀ es : List PExpr, Ag (evalListH h0 env es) (evalListH h env es)
+  | [] => by rw [evalListH, evalListH]; exact Ag.refl _
+  | e :: rest => by
+    rw [evalListH, evalListH]
+    exact Ag.bind (ag_eval h env e) fun _ => Ag.bind (ag_list h env rest) fun _ => Ag.refl _
+end
+
 /-! ### value-level facts for the size bound -/
 
 theorem bind_eq_ok {α β : Type} {x : Except Err α} {f : α → Except Err β} {v : β}
@@ -123,6 +231,65 @@ theorem natAbs_fmod_le (x y : Int) (hy : y ≠ 0) : (Int.fmod x y).natAbs ≤ y.
 theorem num?_str_add {x y : String} {k : Int} : (Val.str (x ++ y)).num? = some k → False := by
   simp [Val.num?]
 
+/-! bitwise operators: on naturals `m ||| n ≤ m + n`, `m ^^^ n ≤ m + n`; on two's-complement integers the magnitude of
+    `x & y`, `x | y`, `x ^ y` is at most `|x| + |y|` (`|x & y| ≤ max |x| |y|` is false: `-5 & -3 = -7`) -/
+
+theorem nat_or_le_add : ∀ a b : Nat, a ||| b ≤ a + b := by
+  intro a
+  induction a using Nat.strongRecOn with
+  | _ a ih =>
+    intro b
+    by_cases ha : a = 0
+    · subst ha; simp
+    · have h1 := ih (a / 2) (by omega) (b / 2)
+      rw [← Nat.or_div_two] at h1
+      have h2 : (a ||| b) % 2 ≤ a % 2 + b % 2 := by
+        have := @Nat.or_mod_two_eq_one a b
+        omega
+      omega
+
+theorem nat_xor_le_or (a b : Nat) : a ^^^ b ≤ a ||| b :=
+  Nat.le_of_testBit (by intro i; simp only [Nat.testBit_xor, Nat.testBit_or]; cases a.testBit i <;> cases b.testBit i <;> simp)
+
+theorem nat_xor_le_add (a b : Nat) : a ^^^ b ≤ a + b := Nat.le_trans (nat_xor_le_or a b) (nat_or_le_add a b)
+
+theorem natAndNot_le (m n : Nat) : Reduino.Lang.natAndNot m n ≤ m :=
+  Nat.le_of_testBit (by
+    intro i; simp only [Reduino.Lang.natAndNot, Nat.testBit_xor, Nat.testBit_and]
+    cases m.testBit i <;> cases n.testBit i <;> simp)
+
+theorem natAbs_bitAnd_le (x y : Int) : (Reduino.Lang.bitAnd x y).natAbs ≤ x.natAbs + y.natAbs := by
+  cases x <;> cases y <;> simp only [Reduino.Lang.bitAnd, Int.natAbs]
+  · rename_i m n; have := @Nat.and_le_left m n; omega
+  · rename_i m n; have := natAndNot_le m n; omega
+  · rename_i m n; have := natAndNot_le n m; omega
+  · rename_i m n; have := nat_or_le_add m n; omega
+
+theorem natAbs_bitOr_le (x y : Int) : (Reduino.Lang.bitOr x y).natAbs ≤ x.natAbs + y.natAbs := by
+  cases x <;> cases y <;> simp only [Reduino.Lang.bitOr, Int.natAbs]
+  · rename_i m n; have := nat_or_le_add m n; omega
+  · rename_i m n; have := natAndNot_le n m; omega
+  · rename_i m n; have := natAndNot_le m n; omega
+  · rename_i m n; have := @Nat.and_le_left m n; omega
+
+theorem natAbs_bitXor_le (x y : Int) : (Reduino.Lang.bitXor x y).natAbs ≤ x.natAbs + y.natAbs := by
+  cases x <;> cases y <;> simp only [Reduino.Lang.bitXor, Int.natAbs]
+  all_goals (rename_i m n; have := nat_xor_le_add m n; omega)
+
+theorem bitRes_bound {f : Int → Int → Int} {g : Bool → Bool → Bool} {a b : Val} {x y k : Int}
+    (hg : ∀ p q : Bool, ((if g p q then 1 else 0 : Int)).natAbs ≤ ((if p then 1 else 0 : Int)).natAbs + ((if q then 1 else 0 : Int)).natAbs)
+    (hf : ∀ x y, (f x y).natAbs ≤ x.natAbs + y.natAbs)
+    (hx : a.num? = some x) (hy : b.num? = some y) (hk : (bitRes f g a b x y).num? = some k) :
+    k.natAbs ≤ x.natAbs + y.natAbs := by
+  unfold bitRes at hk
+  split at hk
+  · simp only [Val.num?, Option.some.injEq] at hx hy hk
+    subst hx hy hk
+    exact hg _ _
+  · simp only [Val.num?, Option.some.injEq] at hk
+    subst hk
+    exact hf _ _
+
 /-- value-level magnitude bounds of the `**`/`<<`-free arithmetic operators -/
 theorem applyBin_bound {op : BinOp} {a b r : Val} {k : Int}
     (hr : applyBin op a b = .ok r) (hk : r.num? = some k) (h1 : op ≠ .pow) (h2 : op ≠ .shl) :
@@ -134,6 +301,10 @@ theorem applyBin_bound {op : BinOp} {a b r : Val} {k : Int}
        | .floordiv => k.natAbs ≤ x.natAbs
        | .shr => k.natAbs ≤ x.natAbs
        | .mod => k.natAbs ≤ y.natAbs
+       | .band => k.natAbs ≤ x.natAbs + y.natAbs
+       | .bor => k.natAbs ≤ x.natAbs + y.natAbs
+       | .bxor => k.natAbs ≤ x.natAbs + y.natAbs
+       | .div => False
        | _ => True) := by
   cases hx : a.num? with
   | none =>
@@ -170,6 +341,15 @@ theorem applyBin_bound {op : BinOp} {a b r : Val} {k : Int}
       · cases hr
       · cases hr; simp only [Val.num?, Option.some.injEq] at hk; subst hk
         exact Int.natAbs_fdiv_le_natAbs _ _
+    · simp only [Except.ok.injEq] at hr; subst hr
+      exact bitRes_bound (fun p q => by cases p <;> cases q <;> decide) natAbs_bitAnd_le hx hy hk
+    · simp only [Except.ok.injEq] at hr; subst hr
+      exact bitRes_bound (fun p q => by cases p <;> cases q <;> decide) natAbs_bitOr_le hx hy hk
+    · simp only [Except.ok.injEq] at hr; subst hr
+      exact bitRes_bound (fun p q => by cases p <;> cases q <;> decide) natAbs_bitXor_le hx hy hk
+    · simp only at hr; split at hr
+      · cases hr
+      · split at hr <;> cases hr
 
 theorem num?_natAbs_bool {b : Bool} {k : Int} (h : (Val.bool b).num? = some k) : k.natAbs ≤ 1 := by
   simp only [Val.num?, Option.some.injEq] at h
